@@ -166,6 +166,54 @@ pub fn main(args: &Args) -> std::io::Result<()> {
             run_case(&mut id, &case, adv, &mut w, &mut st, &mut idx, "scaled");
         }
     }
+    // meandering chains: both chains may wander over the whole width (a left vertex may lie to the right of
+    // earlier right vertices) as long as the polygon stays simple: left chain strictly left of the right
+    // chain at every vertex ordinate
+    let x_at = |chain: &[(i64, i64)], y: i64| -> Option<(i64, i64)> {
+        // x as a fraction (num, den > 0) on the y-monotone chain
+        for w in chain.windows(2) {
+            let (a, b) = (w[0], w[1]);
+            if a.1 <= y && y <= b.1 && a.1 != b.1 {
+                return Some((a.0 * (b.1 - a.1) + (y - a.1) * (b.0 - a.0), b.1 - a.1));
+            }
+        }
+        None
+    };
+    let mut accepted = 0u64;
+    for _ in 0..n_random * 4 {
+        let k = 2 + rng.below(if args.thorough() { 9 } else { 8 }) as usize;
+        let yscale = *rng.pick(&[1i64, 2, 4]);
+        let mut verts: Vec<(i64, i64, bool)> = Vec::new();
+        for i in 0..k {
+            verts.push((rng.range(-6, 12), (i as i64 + 1) * yscale, rng.chance(1, 2)));
+        }
+        let (first, last) = ((0i64, 0i64), (rng.range(-2, 4), (k as i64 + 1) * yscale));
+        let mut left = vec![first];
+        left.extend(verts.iter().filter(|v| v.2).map(|v| (v.0, v.1)));
+        left.push(last);
+        let mut right = vec![first];
+        right.extend(verts.iter().filter(|v| !v.2).map(|v| (v.0, v.1)));
+        right.push(last);
+        let simple = (1..=k as i64).all(|j| {
+            let y = j * yscale;
+            match (x_at(&left, y), x_at(&right, y)) {
+                (Some((ln, ld)), Some((rn, rd))) => ln * rd < rn * ld,
+                _ => false,
+            }
+        });
+        if !simple {
+            continue;
+        }
+        accepted += 1;
+        let case = Case { first, verts, last, monotone: true };
+        for adv in [false, true] {
+            run_case(&mut id, &case, adv, &mut w, &mut st, &mut idx, "meandering");
+        }
+        if accepted >= n_random as u64 {
+            break;
+        }
+    }
+    st.add("meandering_polygons", accepted);
     // arbitrary (not necessarily monotone-polygon) sequences: y non-decreasing, any x, any side
     for _ in 0..n_random / 2 {
         let k = rng.below(8) as usize;
